@@ -17,10 +17,10 @@ All loops are written with explicit fuel; `none` means "the C loop does not leav
 iterations" (the C code has no bound: it spins).  The buffer size (`BUFSZ`, 262144 in both C files) is a
 parameter.
 
-The *main* definitions mirror the tree with `fixes/C15-xfrm-flush-eof.patch` applied (the backends keep calling
-the library while a `FLUSH_FULL` is pending and report a decoder that is cut off in mid-member); the code
-as it is without the patch is `Sqfs/Witness/C15.lean`.  `istream.c` / `ostream.c` are not touched by the
-patch: their model is the same for both.
+The definitions mirror the **current** tree of /repo (after fix commits `8eb5186` — the backends keep calling the library
+while a `FLUSH_FULL` is pending and report a decoder that is cut off in mid-member — and `7b3a56e` — gzip: every zlib
+error is a stream error).  The loops as they were before are `Sqfs/Model/XfrmOld.lean`, kept for `Sqfs/Witness/C15.lean`.
+`istream.c` / `ostream.c` were not touched by those commits.
 -/
 import Sqfs.Generated.Consts
 namespace Sqfs.Xfrm
@@ -466,7 +466,7 @@ inductive Backend where
   | gzip | xz | bzip2
   deriving DecidableEq, Repr, Inhabited
 
-/-- does the wrapper turn this library code into `XFRM_STREAM_ERROR`?  (tree with the patch applied) -/
+/-- does the wrapper turn this library code into `XFRM_STREAM_ERROR`? -/
 def isLibError (b : Backend) (r : LibRet) : Bool :=
   match b, r with
   | _, LibRet.dataError => true      -- gzip.c: `ret != Z_OK && ret != Z_STREAM_END && ret != Z_BUF_ERROR`; xz.c; bzip2.c `ret < 0`
@@ -477,7 +477,7 @@ def isLibError (b : Backend) (r : LibRet) : Bool :=
 abbrev WrapSt (τ : Type) := τ × Bytes × Nat × Nat × Bytes
 
 /--
-One round of the common loop of `gzip.c`, `xz.c`, `bzip2.c` (`process_data`), **with the patch**:
+One round of the common loop of `gzip.c`, `xz.c`, `bzip2.c` (`process_data`):
 `while ((in_size > 0 || flush_mode == XFRM_STREAM_FLUSH_FULL) && out_size > 0)`.
 -/
 def wrapBody {τ : Type} (L : Lib τ) (b : Backend) (compress : Bool) (fl : Flush) :
@@ -533,7 +533,7 @@ structure ZLib (τ : Type) where
   init : τ
   call : τ → Bytes → Nat → Flush → ZOut τ
 
-/-- `xfrm_zstd_t`: the library context and the `pending` flag added by the patch -/
+/-- `xfrm_zstd_t`: the library context and the `pending` flag -/
 structure ZState (τ : Type) where
   lib : τ
   pending : Bool
@@ -542,7 +542,7 @@ structure ZState (τ : Type) where
 /-- loop state of zstd's `process_data` -/
 abbrev ZWrapSt (τ : Type) := ZState τ × Bytes × Nat × Nat × Bytes
 
-/-- one round of the `zstd.c: process_data` loop, **with the patch**; result: final loop state and "error" -/
+/-- one round of the `zstd.c: process_data` loop; result: final loop state and "error" -/
 def zstdBody {τ : Type} (L : ZLib τ) (compress : Bool) (fl : Flush) :
     ZWrapSt τ → LoopStep (ZWrapSt τ) (ZWrapSt τ × Bool)
   | (st, inp, room, ai, ao) =>
